@@ -11,6 +11,11 @@ NOTE = ("Trusted base: go/types + go/ssa (x/tools v0.29.0) as a faithful model o
 
 # id -> (built?, technique, level text, design_ref, reason-if-not-built)
 P = {
+ "C01": (True, "constant propagation of derivation labels into a per-package published table, pinned wire constants and port ranges compared across the station/client sibling implementations, dominance-ordered draw sequences from each derivation stream, version-dispatch guard dominance and argument value-flow (go/ssa, go/types)",
+         "Decides the structural ingredients of the derivation, for every input: every HKDF salt/info and HMAC label in the derivation packages is a compile-time string and equals the published table (so client and station share it, and it cannot move on both sides together); tags are keyed by the shared secret; version thresholds 1/2/3/4 and every private copy, the 104-byte legacy pre-draw (station only, gated by libver<4), the 16-byte seed, per-transport port ranges and fixed ports (prefix table included, client table derived entry-by-entry from the station table) have their published values on both sides; "
+         "each phantom/port label has one derivation site, reached by both the station selector and the client entry with their own seed, subnet group chosen before the family filter, version dispatch exactly at the core thresholds; station and registration server feed Select / port selection from the registration's own seed, generation, version, family; the draw order from every derivation stream (shared keys, obfs4 keys, DTLS certificates and their roles) is the published one and the transport stream is consumed once; the 443 fallback holds for libver<3 or non-randomising subnets. "
+         "These are necessary conditions: the big-integer arithmetic of the weighted subnet / address choice, the legacy varint and math-rand selectors, and byte-level equality of outputs are NOT decided (they need execution).",
+         "4/C01"),
  "C02": (True, "guard dominance on the visibility filter and on each transport's success return, value-flow of the phantom argument through helper call sites, who-may-write (Valid), constant-label table (go/ssa)",
          "Decides for every input and history: connection matching can only see registrations whose own Valid flag is set, taken from the per-phantom map of the connection's original destination (through every helper, by value-flow of the phantom parameter from the socket's original destination); "
          "each transport's success is dominated by its identity checks — min: the map element under the presented 32-byte tag with found==true; prefix: transport type == Prefix and registered prefix id == matched prefix on the typed path, keyed by the tag revealed with a station key; obfs4: the registration whose keys produced the matching mark; "
